@@ -9,7 +9,7 @@ real = core.run_oracle(P, ["lexrun " + core.hx(s) for s in srcs])
 reqs = []
 for r in real:
     st, f = core.parse_resp(r)
-    reqs.append("exec " + f["toks"] if st == "ok" else "ping")
+    reqs.append("exec %s %s" % (f["toks"], f["tb"]) if st == "ok" else "ping")
 mod = core.run_driver(reqs)
 for s, r, m in zip(srcs, real, mod):
     st, f = core.parse_resp(r)
